@@ -134,6 +134,11 @@ class SymBytes:
     def split(self, sep=None, maxsplit=-1):
         if not _isinstance(sep, _bytes) or len(sep) != 1:
             raise EngineUnsupported("SymBytes.split with separator %r" % (sep,))
+        if maxsplit < 0:
+            return _LazySplit(self, sep)
+        return self._split(sep, maxsplit)
+
+    def _split(self, sep, maxsplit):
         out, cur, n = [], [], 0
         for b in self.items:
             if (maxsplit < 0 or n < maxsplit) and b == sep[0]:
@@ -164,6 +169,31 @@ class SymBytes:
                                              "ordinal not in range(128)")
                 raise EngineUnsupported("decode errors=%r" % errors)
         return SymStr(list(self.items))
+
+
+class _LazySplit:
+    """Result of SymBytes.split(sep): element 0 is computed by looking for the
+    first separator only (the usual `raw.split(b"\\0")[0]` idiom); any other
+    access computes the whole list."""
+
+    def __init__(self, data, sep):
+        self.data, self.sep, self.full = data, sep, None
+
+    def _all(self):
+        if self.full is None:
+            self.full = self.data._split(self.sep, -1)
+        return self.full
+
+    def __getitem__(self, i):
+        if i == 0 and self.full is None:
+            return self.data._split(self.sep, 1)[0]
+        return self._all()[i]
+
+    def __len__(self):
+        return len(self._all())
+
+    def __iter__(self):
+        return iter(self._all())
 
 
 class SymByteArray(SymBytes):
